@@ -173,13 +173,27 @@ func (h *NFSProcedureHandler) handleFsinfo(body io.Reader, reply *RPCReply, auth
 		return nfsErrorWithPostOp(reply, NFSERR_IO), nil
 	}
 
-	binary.Write(&buf, binary.BigEndian, uint32(1048576))       // rtmax
-	binary.Write(&buf, binary.BigEndian, uint32(65536))         // rtpref
+	// Advertise only what READ and WRITE accept: the configured transfer
+	// size, and never more than fits in one record next to the RPC header,
+	// credentials and arguments.
+	xferMax := uint32(DefaultMaxRecordSize - 4096)
+	if ts := h.server.handler.tuning.Load().TransferSize; ts > 0 && uint32(ts) < xferMax {
+		xferMax = uint32(ts)
+	}
+	xferPref, dirPref := uint32(65536), uint32(8192)
+	if xferPref > xferMax {
+		xferPref = xferMax
+	}
+	if dirPref > xferMax {
+		dirPref = xferMax
+	}
+	binary.Write(&buf, binary.BigEndian, xferMax)               // rtmax
+	binary.Write(&buf, binary.BigEndian, xferPref)              // rtpref
 	binary.Write(&buf, binary.BigEndian, uint32(4096))          // rtmult
-	binary.Write(&buf, binary.BigEndian, uint32(1048576))       // wtmax
-	binary.Write(&buf, binary.BigEndian, uint32(65536))         // wtpref
+	binary.Write(&buf, binary.BigEndian, xferMax)               // wtmax
+	binary.Write(&buf, binary.BigEndian, xferPref)              // wtpref
 	binary.Write(&buf, binary.BigEndian, uint32(4096))          // wtmult
-	binary.Write(&buf, binary.BigEndian, uint32(8192))          // dtpref (C1: uint32 not uint64)
+	binary.Write(&buf, binary.BigEndian, dirPref)               // dtpref (C1: uint32 not uint64)
 	binary.Write(&buf, binary.BigEndian, uint64(1099511627776)) // maxfilesize
 	binary.Write(&buf, binary.BigEndian, uint32(0))             // time_delta.seconds
 	binary.Write(&buf, binary.BigEndian, uint32(1000000))       // time_delta.nseconds
